@@ -14,9 +14,9 @@ Definition K := code_consts.
 Definition engine_config := set_decimal_config_impl K.
 Definition documented_config := set_decimal_config_spec K.
 Definition D0 := defaults K.
-(* how the engine turns an input literal into a DECIMAL(w,s) value; after a repair: to_scale_lit_spec *)
-Definition engine_to_scale := to_scale_lit_impl.
-Definition documented_to_scale := to_scale_lit_spec.
+(* how the engine turns an input literal into a DECIMAL(w,s) value; after a repair: load_lit_spec *)
+Definition engine_load := load_lit_impl.
+Definition documented_load := load_lit_spec.
 
 (* ---------------------------------------------------------------- the tie, checked by the kernel *)
 Definition row_ok (g : globals) (ew es : option Z) : bool :=
@@ -131,8 +131,8 @@ Proof.
     assert (false = true) by (apply A; auto). discriminate.
 Qed.
 
-(* the documented ranges themselves admit settings DuckDB cannot realise: DECIMAL(w,s) needs s <= w *)
-Theorem C30_documented_ranges_admit_ill_formed_type : exists (w s : Z),
+(* the documented ranges themselves allow settings DuckDB cannot realise: DECIMAL(w,s) needs s <= w *)
+Theorem C30_documented_ranges_allow_ill_formed_type : exists (w s : Z),
   in_doc doc_width w /\ in_doc doc_scale s /\ forall g, fst (run_config documented_config (Some w) (Some s) g) = RawBinder.
 Proof. exists 6, 10. split; [right; vm_compute; split; discriminate|]. split; [right; vm_compute; split; discriminate|]. reflexivity. Qed.
 
@@ -205,23 +205,32 @@ Theorem C30_load_fits : forall w s m e v, load w s m e = Some v -> Z.abs v < 10 
 Proof. intros. apply load_some in H. tauto. Qed.
 
 (* inputs in exponent notation (floats below 1e-4 of a DataFrame, CSV text): documented = the exact value rounded *)
-Theorem C30_load_rounds_to_scale_all_notations : forall s M x, 0 <= s ->
-  documented_to_scale s (Sci M x) = (if x <=? 0 then to_scale s M (- x) else to_scale s (M * 10 ^ x) 0) /\
-  (forall m e, documented_to_scale s (Plain m e) = to_scale s m e /\ engine_to_scale s (Plain m e) = to_scale s m e).
-Proof. intros. split; [reflexivity | intros; split; reflexivity]. Qed.
+Theorem C30_load_all_notations_documented : forall w s,
+  (forall m e, documented_load w s (Plain m e) = load w s m e /\ engine_load w s (Plain m e) = load w s m e) /\
+  (forall M d x, d <= x -> documented_load w s (Sci M d x) = load w s (M * 10 ^ (x - d)) 0) /\
+  (forall M d x, x <= d -> documented_load w s (Sci M d x) = load w s M (d - x)).
+Proof.
+  intros. split; [intros; split; reflexivity|]. split; intros M d x H; unfold documented_load, load_lit_spec, load, to_scale_pow.
+  - destruct (x - d <=? 0) eqn:E; [|reflexivity]. apply Z.leb_le in E. assert (x - d = 0) as -> by lia.
+    simpl Z.opp. rewrite Z.pow_0_r, Z.mul_1_r. reflexivity.
+  - rewrite (proj2 (Z.leb_le (x - d) 0)) by lia. replace (- (x - d)) with (d - x) by lia. reflexivity.
+Qed.
 
-(* the engine (through DuckDB's VARCHAR -> DECIMAL cast) stores 5e-30 as 0.0000000001 under the default DECIMAL(28,10) *)
-Theorem C30_load_rounds_to_scale_refuted : exists M x,
-  documented_to_scale 10 (Sci M x) = 0 /\ engine_to_scale 10 (Sci M x) = 1 /\
-  binop_case_lit engine_to_scale false (CfgOk 28 10) (Sci M x) (Plain 0 0) = OValue 10 1.
-Proof. exists 5, (-30). vm_compute. repeat split. Qed.
+(* the engine (through DuckDB's VARCHAR -> DECIMAL cast) stores 5e-30 as 0.0000000001 under the default DECIMAL(28,10),
+   and rejects 999e-12 (= 0.000000000999) under DECIMAL(12,10) *)
+Theorem C30_load_rounds_to_scale_refuted :
+  (exists M d x, documented_load 28 10 (Sci M d x) = Some 0 /\ engine_load 28 10 (Sci M d x) = Some 1 /\
+     binop_case_lit engine_load false (CfgOk 28 10) (Sci M d x) (Plain 0 0) = OValue 10 1) /\
+  (exists M d x, documented_load 12 10 (Sci M d x) = Some 10 /\ engine_load 12 10 (Sci M d x) = None).
+Proof. split; [exists 5, 0, (-30) | exists 999, 0, (-12)]; vm_compute; repeat split. Qed.
 
-Theorem C30_load_rounds_to_scale_partial : forall s M x, 0 <= s -> - (x + s) <= ndigits M ->
-  engine_to_scale s (Sci M x) = documented_to_scale s (Sci M x).
-Proof. exact lit_impl_eq_spec_when_digits_remain. Qed.
+Theorem C30_load_rounds_to_scale_partial : forall w s M d x,
+  0 <= s -> - (x - d + s) <= ndigits M -> ndigits M - d <= w - s ->
+  engine_load w s (Sci M d x) = documented_load w s (Sci M d x).
+Proof. exact load_lit_impl_eq_spec. Qed.
 
 Theorem C30_plain_literals_case : forall sub o m1 e1 m2 e2,
-  binop_case_lit engine_to_scale sub o (Plain m1 e1) (Plain m2 e2) = binop_case sub o m1 e1 m2 e2.
+  binop_case_lit engine_load sub o (Plain m1 e1) (Plain m2 e2) = binop_case sub o m1 e1 m2 e2.
 Proof. intros. apply binop_case_lit_plain. reflexivity. Qed.
 
 (* sums and differences at scale s are the exact rational sums and differences (unbounded) *)
@@ -263,7 +272,7 @@ Print Assumptions C30_config_accept_iff_documented_partial.
 Print Assumptions C30_out_of_range_rejected_with_config_error.
 Print Assumptions C30_out_of_range_rejected_with_config_error_refuted.
 Print Assumptions C30_raw_error_iff.
-Print Assumptions C30_documented_ranges_admit_ill_formed_type.
+Print Assumptions C30_documented_ranges_allow_ill_formed_type.
 Print Assumptions C30_documented_default_scale_excludes_small_widths.
 Print Assumptions C30_history_independent.
 Print Assumptions C30_history_independent_refuted.
